@@ -15,7 +15,7 @@ func (p *Prog) lemmaObligation(lm *Lemma) ([]*Obligation, error) {
 	sc := NewScript()
 	e := &Enc{prog: p, sc: sc, tr: newTypeReg(p.modPath, sc), heapSorts: map[string]string{}, allocBefore: map[int]Term{},
 		counters: map[string]int{}, assumed: map[string]bool{}, abstracted: map[string]bool{}, rndSeen: map[string]bool{}, fnIDs: map[string]int{},
-		typedSeen: map[string]bool{}, usedContracts: map[string]bool{}, key: "lemma." + lm.Name}
+		typedSeen: map[string]bool{}, rndConst: map[string]Term{}, purified: map[string]Term{}, hookHit: map[string]bool{}, usedContracts: map[string]bool{}, key: "lemma." + lm.Name}
 	st := e.newFreshState()
 	e.entryStateID = st.id
 	se := &specEnv{e: e, old: st, cur: st, binds: map[string]specVal{}, noLocal: true, pkg: p.typesPkg(lm.PkgPath)}
